@@ -13,6 +13,24 @@ CHECKS = {
              note=TB + "Modelled, not verified: std::list/vector/unordered_map as lists and association lists; VertexIndex as nat (no 2^32 wrap).",
              tech="Coq refinement proof (model -> pair-set spec) + differential correspondence check model/implementation", ref="DESIGN.md §6 C01"),
 }
+CHECKS.update({
+ 'C02': dict(text="Theorem C02_faithful (Coq): for every valid history on the undirected model (any orientation per call, any size, any label type) the run ends normally, the "
+                  "symmetric invariant holds and hasEdge (both orientations), neighbour lists, edge count, getDegree (both self-loop conventions), edges() and labels equal the "
+                  "unordered-pair spec; C02_removals_exact states what each removal must not change. Tied to /repo by differential execution of seeded histories with all observers compared.",
+             note=TB + "Modelled, not verified: std::list/vector/unordered_map; adjacency matrix of the undirected class is covered by the correspondence and spec oracle only (no theorem yet).",
+             tech="Coq refinement proof (model -> unordered-pair spec) + differential correspondence check", ref="DESIGN.md §6 C02"),
+ 'C03': dict(text="Theorems C03_directed_labels / C03_undirected_labels (Coq): after any valid history getEdgeLabel (throwing and not) and hasEdge(i,j,l) answer exactly from the spec, "
+                  "whose semantics (C03_spec_semantics) is: value at creation or last setEdgeLabel, re-add keeps it, every removal forgets it. Witnesses of the repaired stale-label "
+                  "defects are kept as kernel-checked examples on the pinned variant. Tied to /repo by differential execution over several label types.",
+             note=TB + "Label types enter the proofs only through equality and the default value (one proof for every L); the harness instantiates int, long, double, char, std::string and a struct.",
+             tech="Coq refinement proof (label store = spec map) + differential correspondence check", ref="DESIGN.md §6 C03"),
+ 'C08': dict(text="Theorems C08_* (Coq): the (vertex, list-position) cursor model of Edges::constEdgeIterator - begin(), end(), operator++, operator*, operator== - enumerates exactly the "
+                  "flattened adjacency lists (directed, ANY graph with size-many lists, zero vertices included) resp. their i<=j half (undirected, under the symmetric invariant), "
+                  "begin()==end() iff no edge, range-for yields 0..n-1, and the users (in-degrees, adjacency matrix) are defined with the right values. Tied to /repo by running every "
+                  "small graph of all eight classes plus random histories, comparing vertex sequence, edge multiset, pre/post-increment and repeated traversals.",
+             note=TB + "The cursor abstracts std::list iterators as list positions; pre/post-increment agreement and repeatability are trivial in a pure model and are checked on the implementation only.",
+             tech="Coq proof about the iterator cursor model + exhaustive small-graph correspondence", ref="DESIGN.md §6 C08"),
+})
 NA = {'C20': "about the C++ type checker/linker accepting client programs (template instantiation, overload resolution, ODR): no executable Gallina model has a counterpart, so machine-checked proof cannot apply (DESIGN.md §6 C20)"}
 def main():
     props = [json.loads(l)['id'] for l in open(os.path.join(ROOT, 'properties.jsonl'))]
